@@ -323,30 +323,51 @@ func countRaw(e ast.Expr, parentRaw bool, ri *rawInfo) {
 }
 
 //-------------------------------------------------------------------
-// reached comparisons (language semantics, per operator through compiled code)
+// reached comparisons
 
-var opFns = map[string]langFn{}
+// The walk decides which comparisons (and a few other operators named in
+// known findings) an evaluation reaches, and with which operand values.
+// Operand values are those of the compiled language: every subtree is
+// compiled as its own function(a,b,c) (so the folder has done to it exactly
+// what it does inside the whole expression: reassociated constants, x * 0,
+// absorbing constants of and/or ...) and called on the row. The walk itself
+// only follows the language's control flow (and / or / ?: short circuit);
+// after a raise it keeps walking the remaining operands (flags only), since
+// folding and the conjunct-wise evaluation of a where may reach them.
 
-func opFn(template string, n int) langFn {
-	f, ok := opFns[template]
+// exprFns holds the compiled subtrees of one expression.
+type exprFns struct {
+	fns    map[*node]langFn
+	folded map[*node]bool // the folder reduces the subtree to a constant
+}
+
+func newExprFns() *exprFns {
+	return &exprFns{fns: map[*node]langFn{}, folded: map[*node]bool{}}
+}
+
+func (x *exprFns) fn(n *node) langFn {
+	f, ok := x.fns[n]
 	if !ok {
-		ps := make([]string, n)
-		for i := range ps {
-			ps[i] = fmt.Sprintf("x%d", i)
-		}
-		f = compileFn(strings.Join(ps, ","), template)
-		if f.fn == nil {
-			panic("qexpr: model template does not compile: " + template + ": " + f.err)
-		}
-		opFns[template] = f
+		src := n.String()
+		f = compileFn("a,b,c", src)
+		x.fns[n] = f
+		func() {
+			defer func() { recover() }()
+			_, isConst := qry.NewQueryParser(src, nil, nil).Expression().(*ast.Constant)
+			x.folded[n] = isConst
+		}()
 	}
 	return f
 }
 
-// walkT evaluates a tree the way the language does (left to right, and/or/?:
-// short circuit), every operator by calling a compiled one-operator function,
-// and records the operand pairs of the comparisons it reaches.
+func (x *exprFns) isFolded(n *node) bool {
+	x.fn(n)
+	return x.folded[n]
+}
+
 type walkT struct {
+	fns        *exprFns
+	args       []core.Value
 	row        map[string]*val
 	documented bool // "" ordered against a boolean or number
 	lossy      bool // F7: integer with > 16 digits compared with a close decimal
@@ -356,71 +377,31 @@ type walkT struct {
 	bitShort   bool // known finding bitop-short-circuit
 }
 
-var allOnes = core.Int64Val(0xffffffff)
-
-// bitop: & and | - left operand first, to see the evaluator's early exit.
-func (w *walkT) bitop(n *node) (core.Value, bool) {
-	l, ok := w.eval(n.kids[0])
-	if !ok {
-		return nil, false
+func newWalk(fns *exprFns, row []*val) *walkT {
+	w := &walkT{fns: fns, args: rowArgs(row), row: map[string]*val{}}
+	for i, c := range cols {
+		w.row[c] = row[i]
 	}
-	absorbing := core.Value(core.Zero)
-	if n.op == "|" {
-		absorbing = allOnes
-	}
-	early := l.Type() == types.Number && l.Equal(absorbing) && n.hasCol()
-	r, ok := w.eval(n.kids[1])
-	if !ok {
-		w.bitShort = w.bitShort || early
-		return nil, false
-	}
-	v, ok := w.call(binTemplates[n.op], l, r)
-	if early && (!ok || !sameValue(v, absorbing)) {
-		w.bitShort = true
-	}
-	return v, ok
+	return w
 }
 
-// negPrefixPair: two negative numbers of which one packed form is a proper
-// prefix of the other (known finding negative-number-packed-prefix-order).
-func negPrefixPair(x, y core.Value) bool {
-	if x.Type() != types.Number || y.Type() != types.Number {
-		return false
-	}
-	px, py := core.Pack(x.(core.Packable)), core.Pack(y.(core.Packable))
-	if len(px) < 3 || len(py) < 3 || px[0] != core.PackMinus || py[0] != core.PackMinus || len(px) == len(py) {
-		return false
-	}
-	return strings.HasPrefix(px, py) || strings.HasPrefix(py, px)
+// merge ors the flags of another walk into w.
+func (w *walkT) merge(o *walkT) {
+	w.documented = w.documented || o.documented
+	w.lossy = w.lossy || o.lossy
+	w.subAsAdd = w.subAsAdd || o.subAsAdd
+	w.divFirst = w.divFirst || o.divFirst
+	w.negPrefix = w.negPrefix || o.negPrefix
+	w.bitShort = w.bitShort || o.bitShort
 }
 
-// divisorFirst: the folder turns this * / chain into a Unary(Div) node or an
-// Nary whose first operand is one (asked of the real parser/folder).
-var divFirstCache = map[string]bool{}
-
-func divisorFirst(n *node) bool {
-	src := n.String()
-	r, ok := divFirstCache[src]
-	if !ok {
-		if len(divFirstCache) > 5000 {
-			divFirstCache = map[string]bool{}
-		}
-		func() {
-			defer func() { recover() }()
-			e := qry.NewQueryParser(src, nil, nil).Expression()
-			isDiv := func(e ast.Expr) bool {
-				u, ok := e.(*ast.Unary)
-				return ok && u.Tok == tok.Div
-			}
-			if nary, ok := e.(*ast.Nary); ok && nary.Tok == tok.Mul {
-				r = isDiv(nary.Exprs[0])
-			} else {
-				r = isDiv(e)
-			}
-		}()
-		divFirstCache[src] = r
+// compiled: the value of the subtree as compiled code gives it.
+func (w *walkT) compiled(n *node) (core.Value, bool) {
+	r := w.fns.fn(n).call(w.args...)
+	if r.raised {
+		return nil, false
 	}
-	return r
+	return r.v, true
 }
 
 func isEmptyStr(v core.Value) bool {
@@ -468,10 +449,20 @@ func lossyPair(x, y core.Value) bool {
 	return diff.Abs(diff).Cmp(unit) < 0
 }
 
-func (w *walkT) pair(op string, constant bool, x, y core.Value) {
-	if constant {
-		return // folded at compile time on values, on both sides
+// negPrefixPair: two negative numbers of which one packed form is a proper
+// prefix of the other (known finding negative-number-packed-prefix-order).
+func negPrefixPair(x, y core.Value) bool {
+	if x.Type() != types.Number || y.Type() != types.Number {
+		return false
 	}
+	px, py := core.Pack(x.(core.Packable)), core.Pack(y.(core.Packable))
+	if len(px) < 3 || len(py) < 3 || px[0] != core.PackMinus || py[0] != core.PackMinus || len(px) == len(py) {
+		return false
+	}
+	return strings.HasPrefix(px, py) || strings.HasPrefix(py, px)
+}
+
+func (w *walkT) pair(op string, x, y core.Value) {
 	if isOrdOp(op) && documentedPair(x, y) {
 		w.documented = true
 	}
@@ -485,7 +476,32 @@ func (w *walkT) pair(op string, constant bool, x, y core.Value) {
 
 func isBool(v core.Value) bool { return v == core.True || v == core.False }
 
-func (w *walkT) call(template string, vals ...core.Value) (core.Value, bool) {
+func isDnum(v core.Value) bool {
+	_, ok := v.(core.SuDnum)
+	return ok
+}
+
+var opFns = map[string]langFn{}
+
+// opFn compiles a one-operator function of x0..xn (used for "what would the
+// query evaluator's variant of this operator give on these operand values").
+func opFn(template string, n int) langFn {
+	f, ok := opFns[template]
+	if !ok {
+		ps := make([]string, n)
+		for i := range ps {
+			ps[i] = fmt.Sprintf("x%d", i)
+		}
+		f = compileFn(strings.Join(ps, ","), template)
+		if f.fn == nil {
+			panic("qexpr: template does not compile: " + template + ": " + f.err)
+		}
+		opFns[template] = f
+	}
+	return f
+}
+
+func callTemplate(template string, vals ...core.Value) (core.Value, bool) {
 	r := opFn(template, len(vals)).call(vals...)
 	if r.raised {
 		return nil, false
@@ -493,18 +509,49 @@ func (w *walkT) call(template string, vals ...core.Value) (core.Value, bool) {
 	return r.v, true
 }
 
-var binTemplates = map[string]string{"is": "x0 is x1", "isnt": "x0 isnt x1", "<": "x0 < x1", "<=": "x0 <= x1",
-	">": "x0 > x1", ">=": "x0 >= x1", "=~": "x0 =~ x1", "!~": "x0 !~ x1", "%": "x0 % x1", "<<": "x0 << x1",
-	">>": "x0 >> x1", "&": "x0 & x1", "|": "x0 | x1", "^": "x0 ^ x1",
-	"neg": "-x0", "pos": "+x0", "bitnot": "~x0", "not": "not x0",
-	"rangeto": "x0[x1 .. x2]", "rangelen": "x0[x1 :: x2]", "sub": "x0[x1]"}
+// divisorFirst: the folder turns this * / chain into a Unary(Div) node or an
+// Nary whose first operand is one (asked of the real parser/folder).
+var divFirstCache = map[string]bool{}
 
+func divisorFirst(n *node) bool {
+	src := n.String()
+	r, ok := divFirstCache[src]
+	if !ok {
+		if len(divFirstCache) > 5000 {
+			divFirstCache = map[string]bool{}
+		}
+		func() {
+			defer func() { recover() }()
+			e := qry.NewQueryParser(src, nil, nil).Expression()
+			isDiv := func(e ast.Expr) bool {
+				u, ok := e.(*ast.Unary)
+				return ok && u.Tok == tok.Div
+			}
+			if nary, ok := e.(*ast.Nary); ok && nary.Tok == tok.Mul {
+				r = isDiv(nary.Exprs[0])
+			} else {
+				r = isDiv(e)
+			}
+		}()
+		divFirstCache[src] = r
+	}
+	return r
+}
+
+var allOnes = core.Int64Val(0xffffffff)
+
+// eval walks n and returns its value (ok = false: raises).
 func (w *walkT) eval(n *node) (core.Value, bool) {
 	switch n.op {
 	case "const":
 		return n.c.cv, true
 	case "col":
 		return w.row[n.col].v, true
+	}
+	if w.fns.isFolded(n) {
+		return w.compiled(n) // a constant: nothing below it is evaluated at run time
+	}
+	switch n.op {
 	case "and", "or":
 		stop := core.False
 		if n.op == "or" {
@@ -516,18 +563,6 @@ func (w *walkT) eval(n *node) (core.Value, bool) {
 		} else {
 			kids = n.orAlts()
 		}
-		// the folder: a constant operand equal to the absorbing value makes the
-		// whole and/or that constant, whatever the other operands are
-		for _, k := range kids {
-			if !k.hasCol() {
-				cw := &walkT{row: w.row}
-				if v, ok := cw.eval(k); ok && v == stop {
-					return stop, true
-				}
-			}
-		}
-		// After a raise the remaining operands are still walked (flags only):
-		// folding and conjunct-wise evaluation may reach them.
 		raised := false
 		for _, k := range kids {
 			v, ok := w.eval(k)
@@ -543,8 +578,6 @@ func (w *walkT) eval(n *node) (core.Value, bool) {
 			return nil, false
 		}
 		return core.SuBool(stop != core.True), true
-	case "&", "|":
-		return w.bitop(n)
 	case "?:":
 		c, ok := w.eval(n.kids[0])
 		if !ok || !isBool(c) {
@@ -557,96 +590,80 @@ func (w *walkT) eval(n *node) (core.Value, bool) {
 		}
 		return w.eval(n.kids[2])
 	}
-	vals := make([]core.Value, len(n.kids))
+	kids, signs := n.kids, n.signs
+	if n.op == "&" || n.op == "|" || n.op == "chain+" {
+		kids, signs = n.flat() // the folder flattens nested chains of the same operator
+	}
+	vals := make([]core.Value, len(kids))
 	failed := false
-	for i, k := range n.kids {
+	for i, k := range kids {
 		v, ok := w.eval(k)
 		if !ok {
 			failed = true // keep walking the other operands (flags only)
 		}
 		vals[i] = v
 	}
-	if failed {
-		return nil, false
+	v, ok := w.compiled(n)
+	switch n.op {
+	case "&", "|":
+		// the query evaluator stops as soon as the running result is the absorbing value
+		absorbing := core.Value(core.Zero)
+		if n.op == "|" {
+			absorbing = allOnes
+		}
+		running, rok := vals[0], vals[0] != nil
+		for i := 1; rok && i < len(vals); i++ {
+			if running.Type() == types.Number && running.Equal(absorbing) {
+				if !ok || !sameValue(v, absorbing) {
+					w.bitShort = true
+				}
+				break
+			}
+			if vals[i] == nil {
+				break
+			}
+			running, rok = callTemplate("x0 "+n.op+" x1", running, vals[i])
+		}
 	}
-	constant := !n.hasCol()
+	if failed {
+		return v, ok
+	}
 	switch n.op {
 	case "in", "notin":
 		for _, y := range vals[1:] {
-			w.pair("is", constant, vals[0], y)
+			w.pair("is", vals[0], y)
 		}
-		ps := make([]string, len(vals)-1)
-		for i := range ps {
-			ps[i] = fmt.Sprintf("x%d", i+1)
-		}
-		op := " in ("
-		if n.op == "notin" {
-			op = " not in ("
-		}
-		return w.call("x0"+op+strings.Join(ps, ", ")+")", vals...)
-	case "chain+", "chain*", "$":
-		var sb, alt strings.Builder
-		sb.WriteString("x0")
-		alt.WriteString("x0")
-		for i := 1; i < len(vals); i++ {
-			sign := "$"
-			if n.op != "$" {
-				sign = string(n.signs[i-1])
-			}
-			fmt.Fprintf(&sb, " %s x%d", sign, i)
-			if sign == "-" {
-				fmt.Fprintf(&alt, " + (-x%d)", i)
-			} else {
-				fmt.Fprintf(&alt, " %s x%d", sign, i)
-			}
-		}
-		if n.op == "chain*" && strings.Contains(n.signs, "/") && divisorFirst(n) {
-			w.divFirst = true
-		}
-		v, ok := w.call(sb.String(), vals...)
-		if n.op == "chain+" && strings.Contains(n.signs, "-") && !constant {
+	case "chain+":
+		if strings.Contains(signs, "-") {
 			// what the query evaluator computes: x + (-y)
-			v2, ok2 := w.call(alt.String(), vals...)
+			var alt strings.Builder
+			alt.WriteString("x0")
+			for i := 1; i < len(vals); i++ {
+				if signs[i-1] == '-' {
+					fmt.Fprintf(&alt, " + (-x%d)", i)
+				} else {
+					fmt.Fprintf(&alt, " + x%d", i)
+				}
+			}
+			v1, ok1 := callTemplate(strings.ReplaceAll(alt.String(), " + (-", " - ("), vals...)
+			v2, ok2 := callTemplate(alt.String(), vals...)
 			// (also another number representation: it decides between exact
 			// integer and 16 digit decimal arithmetic further up)
-			if ok != ok2 || (ok && (!sameValue(v, v2) || isDnum(v) != isDnum(v2))) {
+			if ok1 != ok2 || (ok1 && (!sameValue(v1, v2) || isDnum(v1) != isDnum(v2))) {
 				w.subAsAdd = true
 			}
 		}
-		return v, ok
+	case "chain*":
+		if strings.Contains(n.signs, "/") && divisorFirst(n) {
+			w.divFirst = true
+		}
 	case "call":
 		if n.name == "Max" || n.name == "Min" || n.name == "Cmp" {
-			w.pair("is", constant, vals[0], vals[1]) // compare without the "" exception, but F7 applies
+			w.pair("is", vals[0], vals[1]) // compare without the "" exception, but F7 applies
 		}
-		ps := make([]string, len(vals))
-		for i := range ps {
-			ps[i] = fmt.Sprintf("x%d", i)
-		}
-		return w.call(n.name+"("+strings.Join(ps, ", ")+")", vals...)
-	case "pipe":
-		return w.call("x0 |> "+n.name, vals...)
 	}
 	if isCmpOp(n.op) {
-		w.pair(n.op, constant, vals[0], vals[1])
+		w.pair(n.op, vals[0], vals[1])
 	}
-	tmpl, ok := binTemplates[n.op]
-	if !ok {
-		panic("qexpr: no template for " + n.op)
-	}
-	return w.call(tmpl, vals...)
-}
-
-func isDnum(v core.Value) bool {
-	_, ok := v.(core.SuDnum)
-	return ok
-}
-
-// merge ors the flags of another walk into w.
-func (w *walkT) merge(o *walkT) {
-	w.documented = w.documented || o.documented
-	w.lossy = w.lossy || o.lossy
-	w.subAsAdd = w.subAsAdd || o.subAsAdd
-	w.divFirst = w.divFirst || o.divFirst
-	w.negPrefix = w.negPrefix || o.negPrefix
-	w.bitShort = w.bitShort || o.bitShort
+	return v, ok
 }
